@@ -162,8 +162,10 @@ HOOK_COMMITS = ['ae5437e']
 PROPS = {
     'C01': dict(
         monitor=True,
-        streams=[chain_stream(8000, 300000, _nt_c01)],
-        rule=CHAIN_RULE + 'C01 non-trivial: the chain binds and some provider is called with at least one argument',
+        streams=[chain_stream(8000, 300000, _nt_c01),
+                 dict(name='history', n_quick=800, n_thorough=20000, nontrivial=_nt_pair, compare=_pair_compare, wf_check=False)],
+        rule=CHAIN_RULE + 'C01 non-trivial: the chain binds and some provider is called with at least one argument. stream history (as for C11, without the race '
+             'detector): the Loose / interface-matching clause must also hold for providers from which other providers have been derived with further Loose annotations',
         level_text='Theorem chain_refines (Coq, no axioms): for every case whose plan passes plan_wf, every provider behaviour (wrappers as arbitrary '
                    'interaction trees over any world) and every init/invoke session, the slot machine that mirrors bind.go/generate.go yields the same '
                    'results and final world as the environment-passing reference semantics, in which a parameter is by definition the most recent '
